@@ -328,9 +328,18 @@ func (w *World) RunBlock(b *Block) bool {
 	if dt < 0 {
 		dt = 0
 	}
-	if b.DtRule == 1 {
+	if b.DtRule == 1 || b.DtRule == 2 {
 		if st := w.streamRef(b.DtRef); st != nil && st.ZeroMs.IsInt64() {
 			d := st.ZeroMs.Int64() - w.NowMs() + (b.DtMs%3-1)*1000
+			if b.DtRule == 2 {
+				// into the very second that holds the deposit-zero time: a few milliseconds before it, exactly at it,
+				// or after it but still within that second
+				zero := st.ZeroMs.Int64()
+				sec := zero - zero%1000
+				at := []int64{sec, zero - 1, zero, zero + 1, sec + 999, zero - zero%1000/2}[b.DtMs%6]
+				d = at - w.NowMs()
+				w.Class("block.time-inside-the-second-of-a-deposit-zero-time")
+			}
 			if d > 0 {
 				dt = d
 			}
